@@ -59,6 +59,9 @@ def match_known(prop, item: Item, known):
         ob_re = k.get('obligation_re')
         if ob_re and not re.fullmatch(ob_re, item.id):
             continue
+        nm = k.get('note_match')
+        if nm is not None and not re.search(nm, item.note or ''):
+            continue
         wm = k.get('witness_match')
         if wm is not None:
             if not re.search(wm, json.dumps(item.witness, default=repr, sort_keys=True)):
@@ -143,7 +146,11 @@ def run_property(prop: str, tier: str, seed: int, only=None, do_bounded=True, do
 
 def write_evidence(prop, tier, seed, level, items, info, wall, nviol, known_hit, entry):
     os.makedirs(EVIDENCE, exist_ok=True)
-    P = [i for i in items if i.kind in 'PLF']
+    # obligations refuted and listed as known findings are outside the proof claim: they are reported under
+    # `refuted_known_findings`, not counted among the obligations the claim covers
+    known_ids = {it.id for it, _k in known_hit}
+    P = [i for i in items if i.kind in 'PLF' and i.id not in known_ids]
+    PK = [i for i in items if i.kind in 'PLF' and i.id in known_ids]
     B = [i for i in items if i.kind == 'B']
     discharged = [i for i in P if i.status == 'discharged']
     modulo = [i for i in discharged if i.lemmas]
@@ -171,6 +178,7 @@ def write_evidence(prop, tier, seed, level, items, info, wall, nviol, known_hit,
         'rule': 'proof obligations: one per (function, path, clause); bounded runs: see `bounded` (each states domain, bound, and how distinct non-trivial cases are counted)',
         'samples': samples or [{'note': 'no obligations'}],
         'functions_under_contract': info['functions'],
+        'refuted_known_findings': [{'obligation': i.id, 'statement': i.note, 'replayed': i.replayed} for i in PK],
         'obligations_by_kind': {k: sum(1 for i in P if i.kind == k) for k in 'PLF'},
         'obligations_by_backend': by_backend,
         'solver_ms': round(sum(i.ms for i in P), 1),
